@@ -263,7 +263,11 @@ def c13_6(ctx):
             out.append(ctx.ok(spec, "s and the tweak term are negated exactly when the tweaked output key has odd Y", t, mod, key="tweak-parity"))
         elif txt in ("%s == 1" % want, "%s != 0" % want) and neg_label is True or txt in ("%s == 0" % want, "%s != 1" % want) and neg_label is False:
             out.append(ctx.ok(spec, "s and the tweak term are negated exactly when the tweaked output key has odd Y", t, mod, key="tweak-parity"))
-        elif "parity" in txt:
+        elif isinstance(t, ast.Attribute) and t.attr == "parity" and "call:tweaked_key" in origins(fn, n.id, t.value) and neg_label is True \
+                and len([x for x in ast.walk(ex) if isinstance(x, ast.Attribute) and x.attr == "parity"]) == 1:
+            # the key travels through a local defined on several paths: every definition that can reach here involves tweaked_key
+            out.append(ctx.ok(spec, "s and the tweak term are negated exactly when the tweaked output key has odd Y", t, mod, key="tweak-parity"))
+        elif len([x for x in ast.walk(ex) if isinstance(x, ast.Attribute) and x.attr == "parity"]) >= 2 or "self.point.parity" in txt:
             out.append(ctx.bad(spec, "the negated arm is selected by `%s` instead of the parity of the tweaked output key alone: whenever the untweaked aggregate has odd Y "
                                      "the combined signature is computed with the wrong sign and does not verify" % ast.unparse(t), t, mod, key="tweak-parity"))
         else:
